@@ -13,7 +13,7 @@ use vfs::VfsPath;
 // ---------------------------------------------------------------------------------------
 // C16
 
-#[derive(Clone, Debug, PartialEq, Eq, Hash, PartialOrd, Ord)]
+#[derive(Clone, PartialEq, Eq, Hash, PartialOrd, Ord)]
 pub enum Call {
     CreateDir(&'static str),
     /// create_file, handle kept by the thread
@@ -51,6 +51,19 @@ pub enum Res {
 /// Path-level calls (`VfsPath::create_dir` = parent lookup + filesystem call, …) are not atomic
 /// and nobody promises that: a call that loses a race may fail in any of its steps, so their
 /// error kinds are not compared (tried: the unchanged tree then "fails" in thousands of ways).
+static BIG_WRITE: [u8; 50_000] = [b'q'; 50_000];
+
+impl std::fmt::Debug for Call {
+    fn fmt(&self, f: &mut std::fmt::Formatter<'_>) -> std::fmt::Result {
+        match self {
+            Call::WriteClose(b) if b.len() > 16 => write!(f, "WriteClose(<{} bytes>)", b.len()),
+            Call::WriteFlush(b) => write!(f, "WriteFlush({:?})", b),
+            Call::WriteClose(b) => write!(f, "WriteClose({:?})", b),
+            other => write!(f, "{}", call_kind(other)),
+        }
+    }
+}
+
 fn fixed_instant() -> std::time::SystemTime {
     std::time::UNIX_EPOCH + std::time::Duration::from_secs(86_400 * 365)
 }
@@ -380,6 +393,9 @@ fn items(paths: &[&'static str], full: bool) -> Vec<Vec<Call>> {
         }
     }
     if full {
+        // one large write (50 000 bytes) in a session: buffering inside the write handle
+        v.push(vec![Call::OpenCreate("/a/f"), Call::WriteClose(&BIG_WRITE)]);
+        v.push(vec![Call::OpenAppend("/a/f"), Call::WriteClose(&BIG_WRITE)]);
         // a session that publishes twice (flush, then drop)
         v.push(vec![
             Call::OpenAppend("/a/f"),
@@ -544,6 +560,38 @@ pub fn run_c16(ctx: &Ctx) -> i32 {
                             trait_level: false,
                         },
                     ));
+                }
+            }
+        }
+    }
+    // class E: a write session (the large one and the one that publishes twice included) against a
+    // thread that first LOOKS at the file (content or length) and then changes it: whatever the
+    // observer saw must still be explained by one order once the second thread's change is in
+    {
+        let sessions: Vec<Vec<Call>> = full
+            .iter()
+            .filter(|i| matches!(i[0], Call::OpenCreate("/a/f") | Call::OpenAppend("/a/f")))
+            .cloned()
+            .collect();
+        let changers: Vec<Vec<Call>> = items(&["/a/f"], false)
+            .into_iter()
+            .filter(|i| !matches!(i[0], Call::ReadDir(_) | Call::Exists(_) | Call::CreateDir(_) | Call::RemoveDir(_)))
+            .collect();
+        for init in inits16().into_iter().skip(1).take(2) {
+            for s in &sessions {
+                for o in [Call::ReadAll("/a/f"), Call::Metadata("/a/f")] {
+                    for c in &changers {
+                        let mut b = vec![o.clone()];
+                        b.extend(c.iter().cloned());
+                        programs.push((
+                            "2 threads: a write session on /a/f against (look at /a/f, then change it)".into(),
+                            LinProgram {
+                                init: init.clone(),
+                                threads: vec![s.clone(), b],
+                                trait_level: false,
+                            },
+                        ));
+                    }
                 }
             }
         }
@@ -756,6 +804,15 @@ pub fn run_c17(ctx: &Ctx) -> i32 {
         (Cfg::alt(ov.clone(), "/Z"), vec![], vec![], vec![2], None),
         (Cfg::Ov(vec![Cfg::alt(Cfg::Mem, "/Z"), Cfg::Mem]), vec![], vec![], vec![2], None),
         (Cfg::alt(Cfg::alt(Cfg::Mem, "/Z"), "/Y"), vec![], vec![], vec![2], None),
+        // a physical lower layer in which the prefix was a FILE that was removed and re-created as
+        // a directory through the overlay before the race
+        (
+            Cfg::Ov(vec![Cfg::Mem, Cfg::Phys]),
+            vec![(1, vec![("/a".to_string(), Node::File(b"l".to_vec()))])],
+            vec![Op::RemoveFile("/a".into()), Op::CreateDir("/a".into())],
+            vec![2],
+            None,
+        ),
     ];
     if thorough {
         plans.push((Cfg::Mem, vec![], vec![], vec![4], Some(3)));
